@@ -3,6 +3,7 @@ import Ldlm.Driver.Seq
 import Ldlm.Driver.Rest
 import Ldlm.Driver.Client
 import Ldlm.Driver.Lin
+import Ldlm.Driver.LinThreads
 
 def main (args : List String) : IO UInt32 := do
   match args with
@@ -12,4 +13,5 @@ def main (args : List String) : IO UInt32 := do
   | ["client"] => Ldlm.Driver.clientMain; return 0
   | ["linlease"] => Ldlm.Driver.linLeaseMain; return 0
   | ["linsess"] => Ldlm.Driver.linSessMain; return 0
+  | ["linthreads"] => Ldlm.Driver.ThreadsLin.linThreadsMain; return 0
   | _ => IO.eprintln "usage: driver (codec|seq|conc) ..."; return 2
